@@ -616,6 +616,26 @@ func ruleStreamCreation(p *Prog, r *Out) {
 					closed = true
 				}
 			}
+			// order of the classification of a frame on an unknown stream id
+			var posClosed, posRefuse, posLower token.Pos
+			for _, g := range p.enclosingGuards(pm, c) {
+				if g.Val || g.If == nil {
+					continue
+				}
+				t := p.text(g.Cond)
+				if g.If.Init != nil && strings.Contains(p.text(g.If.Init), "closedStrms[") {
+					posClosed = g.If.Pos()
+				}
+				if strings.Contains(t, "openStreams >= ") || strings.Contains(t, "wasClosing") {
+					posRefuse = g.If.Pos()
+				}
+				if strings.Contains(t, "lastID") && strings.Contains(t, "Stream() <") {
+					posLower = g.If.Pos()
+				}
+			}
+			r.check(posClosed.IsValid() && posRefuse.IsValid() && posClosed < posRefuse, fn+" closed-id lookup before refusal", p.pos(c.Pos()), "a frame on a recently closed stream is recognised before the limit/closing refusal",
+				"the limit/closing refusal runs before the closed-stream lookup: at MaxConcurrentStreams (or after GOAWAY) a late WINDOW_UPDATE/PRIORITY on a stream the server just finished, which RFC 7540 s5.1 says must be ignored, is answered with RST_STREAM(REFUSED_STREAM), and DATA/HEADERS on it get REFUSED_STREAM instead of STREAM_CLOSED")
+			r.check(posRefuse.IsValid() && posLower.IsValid() && posRefuse < posLower, fn+" refusal before lower-id test", p.pos(c.Pos()), "order: closed-id, refusal, lower-id, create", "the order of the unknown-stream classification changed: the lower-than-latest test now precedes the refusal")
 			r.check(limit, fn+" NewStream after limit test", p.pos(c.Pos()), "openStreams >= maxStreams exits first", "a stream is created without first refusing when MaxConcurrentStreams slots are in use")
 			r.check(closing, fn+" NewStream after closing test", p.pos(c.Pos()), "wasClosing exits first", "a stream is created although the connection has sent GOAWAY: a request above the advertised last-stream-id may be dispatched")
 			r.check(closed, fn+" NewStream after closed-stream lookup", p.pos(c.Pos()), "closed ids exit first", "a stream is created without consulting the closed-stream memory: a late frame on a closed stream re-opens it")
